@@ -5,10 +5,14 @@
 first="${1:-1}"; last="${2:-10}"; budget="${3:-20}"; tier="${4:-quick}"
 HERE="$(cd "$(dirname "${BASH_SOURCE[0]}")" && pwd)"
 cd "$HERE" && ./check build || exit 2
+# run from private copies of the binaries, so that rebuilding the simulator meanwhile does not disturb the sweep
+BINDIR="$(mktemp -d /dev/shm/mechsim-sweep-bin.XXXXXX)"
+cp sim/target/debug/mechsim sim/target/debug/mechsim-fs "$BINDIR/"
+trap 'rm -rf "$BINDIR"' EXIT
 bad=0
 for s in $(seq "$first" "$last"); do
   for P in C04 C05 C07 C17 C19 C20; do
-    if [ "$P" = C20 ]; then B=sim/target/debug/mechsim-fs; else B=sim/target/debug/mechsim; fi
+    if [ "$P" = C20 ]; then B="$BINDIR/mechsim-fs"; else B="$BINDIR/mechsim"; fi
     out=$(VERIF_BUDGET_S="$budget" "$B" check --property "$P" --tier "$tier" --seed "$s" --evidence "/dev/shm/sweep-ev-$P.json" 2>&1)
     rc=$?
     line=$(echo "$out" | grep "^\[$P\] runs=" | tail -1)
